@@ -539,6 +539,10 @@ class extract_visitor(NodeVisitor):
             items = node.items
 
         for it in items:
+            # the context expression is evaluated first: where it ends in a
+            # region of its own (`with (c or (y := m(x))) as x`) the target is
+            # bound there, not in the region its branches fork from
+            self.visit(it.context_expr)
             if it.optional_vars:
                 # a target is bound as soon as its own item is entered: later items may read it
                 loc = get_expr_end(it.optional_vars)
@@ -550,8 +554,10 @@ class extract_visitor(NodeVisitor):
                     else:
                         name = nn  # type: ast.Name # type: ignore[assignment]
                         self.flow.add_name(AssignedName(name.id, loc, np(name), node))
+                self.visit(it.optional_vars)
 
-        self.generic_visit(node)
+        for stmt in node.body:
+            self.visit(stmt)
 
     visit_AsyncWith = visit_With
 
